@@ -77,10 +77,12 @@ Definition wf (d : data) : Prop :=
   end.
 
 (* ---------------------------------------------------------------- dispatch_data_create_concat (data.c:317-361) *)
-Definition concat (fresh : Z) (dd1 dd2 : data) : data :=
-  if size dd1 =? 0 then dd2
-  else if size dd2 =? 0 then dd1
-  else DComp fresh false (u64 (size dd1 + size dd2)) (records_of dd1 ++ records_of dd2).
+(* None = DISPATCH_OUT_OF_MEMORY (NULL): the total size does not fit in size_t (os_add_overflow, data.c:336) *)
+Definition concat (fresh : Z) (dd1 dd2 : data) : option data :=
+  if size dd1 =? 0 then Some dd2
+  else if size dd2 =? 0 then Some dd1
+  else if M64 <=? size dd1 + size dd2 then None
+  else Some (DComp fresh false (size dd1 + size dd2) (records_of dd1 ++ records_of dd2)).
 
 (* ---------------------------------------------------------------- dispatch_data_create_subrange (data.c:363-458) *)
 (* while (i < n && offset >= records[i].length) offset -= records[i++].length;  returns records[i..], offset *)
@@ -322,7 +324,7 @@ Definition copy_region (fresh : Z) (dd : data) (location : Z) : option (data * Z
 Inductive built : data -> Prop :=
 | b_empty : built empty
 | b_leaf : forall id bytes, id <> EMPTY_ID -> bytes <> [] -> Z.of_nat (length bytes) < M64 -> built (DLeaf (mkLeaf id bytes))
-| b_concat : forall f a b, built a -> built b -> f <> EMPTY_ID -> size a + size b < M64 -> built (concat f a b)
+| b_concat : forall f a b d, built a -> built b -> f <> EMPTY_ID -> concat f a b = Some d -> built d
 | b_subrange : forall f a off len d, built a -> f <> EMPTY_ID -> 0 <= off < M64 -> 0 <= len < M64 ->
     subrange f a off len = Some d -> built d
 | b_map : forall f a d bs, built a -> f <> EMPTY_ID -> map_bytes f a = Some (d, bs) -> built d
@@ -420,13 +422,14 @@ Definition create (st : state) (id : Z) (bytes : list byte) : state * data :=
   end.
 
 (* one API call: new state and the returned object (for retain/release: the operand).
-   None = operand not live (client error) or a model fault (out-of-block access / internal crash). *)
+   None = operand not live (client error), a model fault (out-of-block access / internal crash), or no object
+   returned (concat: DISPATCH_OUT_OF_MEMORY). *)
 Definition step (st : state) (o : op) : option (state * data) :=
   match o with
   | OCreate id bytes => Some (create st id bytes)
   | OConcat fresh a b =>
       match get st a, get st b with
-      | Some da, Some db => let d := concat fresh da db in Some (adopt st d, d)
+      | Some da, Some db => match concat fresh da db with Some d => Some (adopt st d, d) | None => None end
       | _, _ => None
       end
   | OSubrange fresh a off len =>
